@@ -149,10 +149,10 @@ def run_property(prop: str, obs: list[Ob], *, tier: str, seed: int, level: str,
             results[i] = _run_one(i)[1]
     else:
         ctx = mp.get_context("fork")
-        with ProcessPoolExecutor(max_workers=min(jobs, len(obs)), mp_context=ctx) as ex:
-            # heavier obligations first
-            order = sorted(range(len(obs)), key=lambda i: -obs[i].timeout)
-            for i, v in ex.map(_run_one, order, chunksize=1):
+        # one fresh forked process per obligation: no state (assembled classes, patched modules, contexts) leaks between them
+        order = sorted(range(len(obs)), key=lambda i: -obs[i].timeout)
+        with ctx.Pool(processes=min(jobs, len(obs)), maxtasksperchild=1) as pool:
+            for i, v in pool.imap_unordered(_run_one, order, chunksize=1):
                 results[i] = v
 
     known = load_known(prop)
@@ -164,7 +164,7 @@ def run_property(prop: str, obs: list[Ob], *, tier: str, seed: int, level: str,
     selfcheck_fail = []
     for i in canaries:
         if results[i].status != REFUTED:
-            selfcheck_fail.append(f"canary {obs[i].id} was not refuted ({results[i].status}: {results[i].detail[:200]})")
+            selfcheck_fail.append(f"canary {obs[i].id} was not refuted ({results[i].status}: {results[i].detail[-900:]})")
     errors = [i for i in real if results[i].status == ERROR]
     for i in errors:
         selfcheck_fail.append(f"checker error in {obs[i].id}: {results[i].detail[-800:]}")
